@@ -373,4 +373,197 @@ theorem resyncLoopG_last {m0 : View} {st0 : Nat} (fin : List KV × Nat) (mode : 
       obtain ⟨L, hgL, hvL⟩ := hl
       exact watchPart _ _ _ _ _ L hg hs hm hgL hvL hr
 
+/-- General form of `resyncLoopG_last` (no assumption that a resync is owed at the start): whenever the ghost
+names a snapshot when the watch is created, the cache holds exactly its fresh conversion. -/
+theorem resyncLoopG_last' {m0 : View} {st0 : Nat} (fin : List KV × Nat) (mode : Option Proc) :
+    ∀ (fuel : Nat) (wc : WC) (full : Bool) (lists : List ListOut) (watches : List WatchOut)
+      (g : Option (List KV)) (b : Bool),
+      Good m0 st0 wc → (wc.status = stWait → full = true ∨ wc.rev = 0) → wc.proc = mode →
+      (∀ L, g = some L → ViewIs mode L wc ∨ full = true ∨ wc.rev = 0) →
+      ∀ r, resyncLoopG fin fuel wc full lists watches g b = some r →
+        (∀ L, r.2.1 = some L → ViewIs mode L r.1) ∧ r.1.proc = mode := by
+  intro fuel
+  induction fuel with
+  | zero => intro wc full lists watches g b _ _ _ _ r hr; simp [resyncLoopG] at hr
+  | succ n ih =>
+    intro wc full lists watches g b hg ho hm hq r hr
+    unfold resyncLoopG at hr
+    simp only at hr
+    by_cases hstop : ((full || decide (wc.rev = 0)) && (lists.headD (ListOut.ok fin.1 fin.2)).isPollStop) = true
+    · simp only [hstop, if_true, Option.some.injEq] at hr
+      have hf : (full || decide (wc.rev = 0)) = true := (Bool.and_eq_true _ _ ▸ hstop).1
+      have hlo := isPollStop_eq _ (Bool.and_eq_true _ _ ▸ hstop).2
+      simp only [hf, if_true, hlo] at hr
+      subst hr
+      obtain ⟨hv, hp⟩ := listStep_pollStop_view hg
+      refine ⟨fun L hL => ?_, by rw [listStep_mode]; exact hm⟩
+      have : L = [] := by simp [ghostList] at hL; exact hL
+      subst this
+      exact ⟨fun k => by rw [hv k, hm], by rw [hp, hm]⟩
+    have hstop' : ((full || decide (wc.rev = 0)) && (lists.headD (ListOut.ok fin.1 fin.2)).isPollStop) = false := by
+      simpa using hstop
+    simp only [hstop', Bool.false_eq_true, if_false] at hr
+    have watchPart : ∀ (w1 : WC) (f : Bool) (ls : List ListOut) (g1 : Option (List KV)) (b1 : Bool),
+        Good m0 st0 w1 → w1.status ≠ stWait → w1.proc = mode → (∀ L, g1 = some L → ViewIs mode L w1) →
+        (if (watchStep w1 f (watches.headD WatchOut.ok)).2.2 = true then
+            some ((watchStep w1 f (watches.headD WatchOut.ok)).1, g1, b1)
+          else resyncLoopG fin n (watchStep w1 f (watches.headD WatchOut.ok)).1
+            (watchStep w1 f (watches.headD WatchOut.ok)).2.1 ls watches.tail g1 b1) = some r →
+        (∀ L, r.2.1 = some L → ViewIs mode L r.1) ∧ r.1.proc = mode := by
+      intro w1 f ls g1 b1 gd hs1 hm1 hv1 hw1
+      obtain ⟨pm, rs, ol, ps⟩ := watchStep_same w1 f (watches.headD WatchOut.ok)
+      have hwk := watchStep_ok gd f (watches.headD WatchOut.ok)
+      have hv2 : ∀ L, g1 = some L → ViewIs mode L (watchStep w1 f (watches.headD WatchOut.ok)).1 :=
+        fun L hL => (hv1 L hL).of_eq rs ol ps
+      split at hw1
+      · simp only [Option.some.injEq] at hw1
+        subst hw1
+        exact ⟨hv2, by rw [pm]; exact hm1⟩
+      · exact ih _ _ _ _ _ _ hwk.1 (fun c => by rw [hwk.2] at c; exact absurd c hs1) (by rw [pm]; exact hm1)
+          (fun L hL => Or.inl (hv2 L hL)) r hw1
+    by_cases hf : (full || decide (wc.rev = 0)) = true
+    · simp only [hf, if_true] at hr
+      have hls := listStep_ok hg (lists.headD (ListOut.ok fin.1 fin.2))
+      have hmode : (listStep wc (lists.headD (ListOut.ok fin.1 fin.2))).1.proc = mode := by
+        rw [listStep_mode]; exact hm
+      by_cases hgo : (listStep wc (lists.headD (ListOut.ok fin.1 fin.2))).2.2 = true
+      · simp only [hgo, Bool.not_true, Bool.false_eq_true, if_false] at hr
+        obtain ⟨kvs, lrev, elo, hv, hps⟩ := listStep_listed hg _ hgo
+        have hgl : ghostList (lists.headD (ListOut.ok fin.1 fin.2)) g = some kvs := by rw [elo]; rfl
+        refine watchPart _ _ _ _ _ hls.good (hls.go hgo) hmode ?_ hr
+        intro L hL
+        rw [hgl] at hL
+        have : L = kvs := (Option.some.inj hL).symm
+        subst this
+        exact ⟨fun k => by rw [hv k, hm], by rw [hps, hm]⟩
+      · have hgo' : (listStep wc (lists.headD (ListOut.ok fin.1 fin.2))).2.2 = false := by simpa using hgo
+        simp only [hgo', Bool.not_false, if_true] at hr
+        have hfull : (listStep wc (lists.headD (ListOut.ok fin.1 fin.2))).2.1 = true := by
+          revert hgo'
+          unfold listStep
+          simp only
+          cases lists.headD (ListOut.ok fin.1 fin.2) with
+          | notFound => intro _; rfl
+          | expired => intro _; rfl
+          | other e => intro _; rfl
+          | pollStop => intro _; rfl
+          | ok kvs lrev =>
+            simp only
+            split
+            · intro _; rfl
+            · intro c; cases c
+        exact ih _ _ _ _ _ _ hls.good hls.owed hmode (fun _ _ => Or.inr (Or.inl hfull)) r hr
+    · simp only [hf, Bool.false_eq_true, if_false, Bool.not_true] at hr
+      have hnf : full = false ∧ wc.rev ≠ 0 := by
+        simp only [Bool.or_eq_true, decide_eq_true_eq, not_or] at hf
+        exact ⟨by simpa using hf.1, hf.2⟩
+      have hl : ∀ L, g = some L → ViewIs mode L wc := by
+        intro L hL
+        rcases hq L hL with h1 | h1 | h1
+        · exact h1
+        · rw [hnf.1] at h1; cases h1
+        · exact absurd h1 hnf.2
+      have hs : wc.status ≠ stWait := by
+        intro c
+        rcases ho c with h1 | h1
+        · rw [hnf.1] at h1; cases h1
+        · exact absurd h1 hnf.2
+      exact watchPart _ _ _ _ _ hg hs hm hl hr
+
+/-! ### a call that does not list leaves the cache and the processor untouched until the watch resumes -/
+
+/-- Same resources / processor state as `wc0`. -/
+def SameAs (wc0 wc : WC) : Prop := wc.res = wc0.res ∧ wc.old = wc0.old ∧ wc.pst = wc0.pst ∧ wc.proc = wc0.proc
+
+theorem resyncLoopG_nolist (fin : List KV × Nat) (wc0 : WC) :
+    ∀ (fuel : Nat) (wc : WC) (full : Bool) (lists : List ListOut) (watches : List WatchOut)
+      (g : Option (List KV)) (b : Bool),
+      (g = none → SameAs wc0 wc ∨ full = true ∨ wc.rev = 0) →
+      ∀ r, resyncLoopG fin fuel wc full lists watches g b = some r → r.2.1 = none → SameAs wc0 r.1 := by
+  intro fuel
+  induction fuel with
+  | zero => intro wc full lists watches g b _ r hr; simp [resyncLoopG] at hr
+  | succ n ih =>
+    intro wc full lists watches g b hq r hr hnone
+    unfold resyncLoopG at hr
+    simp only at hr
+    by_cases hf : (full || decide (wc.rev = 0)) = true
+    · -- a List is attempted: afterwards either the ghost is set, or a full resync is still owed
+      simp only [hf, if_true, Bool.true_and] at hr
+      have howed : ghostList (lists.headD (ListOut.ok fin.1 fin.2)) g = none →
+          (listStep wc (lists.headD (ListOut.ok fin.1 fin.2))).2.1 = true ∧
+            (listStep wc (lists.headD (ListOut.ok fin.1 fin.2))).2.2 = false ∧
+            (lists.headD (ListOut.ok fin.1 fin.2)).isPollStop = false := by
+        cases lists.headD (ListOut.ok fin.1 fin.2) with
+        | ok kvs lrev => intro c; simp [ghostList] at c
+        | pollStop => intro c; simp [ghostList] at c
+        | notFound => intro _; exact ⟨rfl, rfl, rfl⟩
+        | expired => intro _; exact ⟨rfl, rfl, rfl⟩
+        | other e => intro _; exact ⟨rfl, rfl, rfl⟩
+      split at hr
+      · simp only [Option.some.injEq] at hr
+        subst hr
+        rename_i hps
+        have := howed hnone
+        rw [this.2.2] at hps; cases hps
+      · split at hr
+        · exact ih _ _ _ _ _ _ (fun hg => Or.inr (Or.inl (howed hg).1)) r hr hnone
+        · rename_i hgo
+          split at hr
+          · simp only [Option.some.injEq] at hr
+            subst hr
+            have := howed hnone
+            exact absurd (by rw [this.2.1]; rfl) hgo
+          · -- the ghost must already be set here (the List step went on to the Watch)
+            refine ih _ _ _ _ _ _ (fun hg => ?_) r hr hnone
+            have := howed hg
+            exact absurd (by rw [this.2.1]; rfl) hgo
+    · simp only [hf, Bool.false_eq_true, if_false, Bool.not_true, Bool.false_and] at hr
+      have hnf : full = false ∧ wc.rev ≠ 0 := by
+        simp only [Bool.or_eq_true, decide_eq_true_eq, not_or] at hf
+        exact ⟨by simpa using hf.1, hf.2⟩
+      obtain ⟨pm, rs, ol, ps⟩ := watchStep_same wc false (watches.headD WatchOut.ok)
+      have hsame : g = none → SameAs wc0 (watchStep wc false (watches.headD WatchOut.ok)).1 := by
+        intro hg
+        rcases hq hg with h1 | h1 | h1
+        · exact ⟨rs.trans h1.1, ol.trans h1.2.1, ps.trans h1.2.2.1, pm.trans h1.2.2.2⟩
+        · rw [hnf.1] at h1; cases h1
+        · exact absurd h1 hnf.2
+      split at hr
+      · simp only [Option.some.injEq] at hr
+        subst hr
+        exact hsame hnone
+      · exact ih _ _ _ _ _ _ (fun hg => Or.inl (hsame hg)) r hr hnone
+
+/-! ### the processor's state through the event loop -/
+
+theorem handleWatchListEvent_pst (wc : WC) (kv : KV) :
+    (wc.handleWatchListEvent kv).pst = (procRun wc.proc wc.pst kv).1 := by
+  unfold WC.handleWatchListEvent
+  simp only
+  split
+  · rw [send_pst, foldl_handleConverted_pst]
+  · rw [foldl_handleConverted_pst]
+
+theorem eventLoop_pst (evs : List Ev) (wc : WC) :
+    (eventLoop wc evs).pst = convState wc.proc wc.pst (processed evs) ∧ (eventLoop wc evs).proc = wc.proc := by
+  induction evs generalizing wc with
+  | nil => exact ⟨rfl, rfl⟩
+  | cons ev evs ih =>
+    cases ev with
+    | upsert kv =>
+      simp only [eventLoop, processed, convState]
+      obtain ⟨a, b⟩ := ih (wc.handleWatchListEvent kv)
+      rw [handleWatchListEvent_pst, handleWatchListEvent_mode] at a
+      exact ⟨a, b.trans (handleWatchListEvent_mode wc kv)⟩
+    | delete kv =>
+      simp only [eventLoop, processed, convState]
+      obtain ⟨a, b⟩ := ih (wc.handleWatchListEvent { kv with del := true })
+      rw [handleWatchListEvent_pst, handleWatchListEvent_mode] at a
+      exact ⟨a, b.trans (handleWatchListEvent_mode wc _)⟩
+    | bookmark r => simp only [eventLoop, processed]; exact ih _
+    | errExpired => simp only [eventLoop, processed, convState]; exact ⟨by trivial, by trivial⟩
+    | errOther => simp only [eventLoop, processed, convState]; split <;> exact ⟨by trivial, by trivial⟩
+    | unknown => simp only [eventLoop, processed]; exact ih wc
+
 end CalicoVerif.C26
